@@ -346,15 +346,18 @@ impl<D: DataMut> ReaderFrom for VecZnx<D> {
         let len: usize = reader.read_u64::<LittleEndian>()? as usize;
 
         // Validate metadata consistency: n * cols * size * sizeof(i64) must match data length.
-        let expected_len: usize = new_n * new_cols * new_size * size_of::<i64>();
-        if expected_len != len {
+        // Checked arithmetic: the header comes from an untrusted stream.
+        let limb_bytes: Option<usize> = new_n.checked_mul(new_cols).and_then(|x| x.checked_mul(size_of::<i64>()));
+        let expected_len: Option<usize> = limb_bytes.and_then(|x| x.checked_mul(new_size));
+        if expected_len != Some(len) || new_size > new_max_size {
             return Err(std::io::Error::new(
                 std::io::ErrorKind::InvalidData,
                 format!(
-                    "VecZnx metadata inconsistent: n={new_n} * cols={new_cols} * size={new_size} * 8 = {expected_len} != data len={len}"
+                    "VecZnx metadata inconsistent: n={new_n} * cols={new_cols} * size={new_size} * 8 != data len={len} (or size > max_size={new_max_size})"
                 ),
             ));
         }
+        let limb_bytes: usize = limb_bytes.unwrap_or(0);
 
         let buf: &mut [u8] = self.data.as_mut();
         if buf.len() < len {
@@ -369,7 +372,13 @@ impl<D: DataMut> ReaderFrom for VecZnx<D> {
         self.n = new_n;
         self.cols = new_cols;
         self.size = new_size;
-        self.max_size = new_max_size;
+        // The capacity is a property of the receiving buffer, not of the stream: never advertise more limbs
+        // than the buffer holds for the incoming (n, cols).
+        self.max_size = if limb_bytes == 0 {
+            new_max_size
+        } else {
+            new_max_size.min(self.data.as_ref().len() / limb_bytes)
+        };
         Ok(())
     }
 }
